@@ -734,6 +734,9 @@ func (g *gen) cond(d int) *gExpr {
 		if hasTern(c) {
 			return &gExpr{op: "fld", s: "B0"}
 		}
+		if g.pick(4) == 0 {
+			return &gExpr{op: "not", l: &gExpr{op: "not", l: c}}
+		}
 		return &gExpr{op: "not", l: c}
 	case k == 6:
 		if d > 0 {
@@ -745,6 +748,24 @@ func (g *gen) cond(d int) *gExpr {
 		}
 		return &gExpr{op: "fld", s: "B2"}
 	case k == 7:
+		if g.pick(3) == 0 && d > 0 {
+			// a ternary as a condition, with constant arms (the join of its arms sits right before the test)
+			c := g.cond(d - 1)
+			if !hasTern(c) && !hasCall(c) {
+				arm := func() *gExpr {
+					switch g.pick(4) {
+					case 0:
+						return &gExpr{op: "blit", b: true}
+					case 1:
+						return &gExpr{op: "blit", b: false}
+					case 2:
+						return &gExpr{op: "bin", s: "==", l: &gExpr{op: "ilit", i: 1}, r: &gExpr{op: "ilit", i: int64(1 + g.pick(2))}}
+					}
+					return &gExpr{op: "fld", s: boolFields[g.pick(len(boolFields))]}
+				}
+				return &gExpr{op: "tern", c: c, l: arm(), r: arm()}
+			}
+		}
 		return &gExpr{op: "blit", b: g.pick(2) == 0}
 	case k == 8:
 		ops := []string{"==", "!=", "<", ">"}
